@@ -232,7 +232,7 @@ def tokenize_ignore(text, prev=None):
     >>> print(*tokenize(categorize('\x00hello')))
     hello
     """
-    while text.peek().category in (CC.Ignored, CC.Invalid):
+    while text.hasNext() and text.peek().category in (CC.Ignored, CC.Invalid):
         text.forward(1)
 
 
